@@ -160,7 +160,8 @@ class CombinedDataHandler:
         e.g. <district>_<county> or <district>_<county>_<precinct>
         """
         components = geographic_unit_fips.split("_")
-        if "district" in self.geographic_unit_type:
+        # an unexpected unit can come with an id that has no district part (we did not produce it), use what there is
+        if "district" in self.geographic_unit_type and len(components) > 1:
             return components[1]
         return components[0]
 
